@@ -31,7 +31,7 @@ def generate(rng, tier, focus):
     ops = []
     kinds = ["copy", "copy", "deep_copy", "move", "move", "move_to", "rotate", "rotate", "set_pos", "set_vel", "set_ids",
              "set_resids", "set_names", "view", "view_assign", "view_assign", "system", "alignment", "atom_copy",
-             "residue_copy", "atoms_list"]
+             "residue_copy", "atoms_list", "read_centre", "read_centre"]
     for _ in range(n_ops):
         k = rng.choice(kinds)
         op = {"op": k, "pick": rng.randrange(10 ** 6), "seed": rng.randrange(2 ** 31)}
@@ -239,6 +239,23 @@ def execute(trace, ctx):
                         D1 = np.linalg.norm(got[:, None] - got[None, :], axis=-1)
                         if np.max(np.abs(D0 - D1)) > 1e-9 * max(1.0, float(np.max(D0))):
                             ctx.violate(P, "shape", f"{kind} changed interatomic distances")
+            elif kind == "read_centre":
+                # a pure observation (as user code does between operations); must agree with the model and change nothing
+                k = bodies[op["pick"] % len(bodies)]
+                o = M.objs[k]
+                want = np.array([M.cells[c]["pos"] for c in o["cells"]]).mean(axis=0)
+                which = op["pick"] % 3
+                if which == 0:
+                    got = np.array(o["obj"].geometric_center)
+                elif which == 1:
+                    got = np.array([o["obj"].x, o["obj"].y, o["obj"].z])
+                else:
+                    got = want if abs(float(o["obj"].distance_to_zero) - float(np.linalg.norm(want))) <= 1e-9 * max(1.0, float(np.linalg.norm(want))) else np.full(3, np.nan)
+                if not np.all(np.isfinite(got)) or np.max(np.abs(got - want)) > 1e-9 * max(1.0, float(np.max(np.abs(want)))):
+                    ctx.violate(P, "centre", f"geometric centre reported as {got.tolist()}, the atoms' mean is {want.tolist()}",
+                                key="read")
+                ctx.op(kind, o["kind"])
+                verify(ctx, M, set(), None, kind)
             elif kind == "set_pos":
                 k = anyobj[op["pick"] % len(anyobj)]
                 o = M.objs[k]
